@@ -193,15 +193,77 @@ Definition roots (g : graph) (sel : list string) : res (list addr) :=
 
 (* every address the traversal can ever meet *)
 Definition universe (g : graph) (rs : list addr) : list addr :=
-  rs ++ flat_map (msg_targets g) (table g).
+  rs ++ map m_addr (table g) ++ flat_map (msg_targets g) (table g).
 
-Definition allowlist (g : graph) (sel : list string) : res (list addr) :=
+(* the traversal from the roots of the listed methods (Proto.add_to_address_allowlist over api.protos) *)
+Definition allowlist0 (g : graph) (sel : list string) : res (list addr) :=
   match roots g sel with
   | Err e => Err e
   | Ok rs => match dfs (succ g) (length (universe g rs)) rs [] with
              | Some s => Ok s
              | None => Err EFuel          (* never: Proofs.allowlist_total *)
              end
+  end.
+
+(* everything declared strictly inside a message: nested enums, nested messages and what they contain *)
+Fixpoint rendered_from (m : msg) : list addr :=
+  match m with Msg a _ es ns => a :: es ++ flat_map rendered_from ns end.
+Definition desc (m : msg) : list addr := m_enums m ++ flat_map rendered_from (m_nested m).
+
+(* API.build, has_allowlisted_descendant *)
+Fixpoint has_desc (al : list addr) (m : msg) : bool :=
+  match m with
+  | Msg _ _ es ns => existsb (fun e => mem e al) es || existsb (fun n => mem (m_addr n) al || has_desc al n) ns
+  end.
+
+(* proto.messages of api.protos, in order: the top-level messages the closing loop looks at *)
+Definition tops (g : graph) : list msg := flat_map fi_msgs (filter fi_target g).
+
+(* one sweep of the "while changed" loop of API.build: a top-level message that is not allow-listed
+   but has an allow-listed descendant is traversed (MessageType.add_to_address_allowlist on the
+   SAME set, so later messages of the sweep see the additions); the flag is "changed" *)
+Fixpoint close_pass (g : graph) (n : nat) (ts : list msg) (al : list addr) : option (list addr * bool) :=
+  match ts with
+  | [] => Some (al, false)
+  | m :: rest =>
+      if negb (mem (m_addr m) al) && has_desc al m then
+        match dfs (succ g) n [m_addr m] al with
+        | None => None
+        | Some al1 => match close_pass g n rest al1 with
+                      | None => None
+                      | Some (al2, _) => Some (al2, true)
+                      end
+        end
+      else close_pass g n rest al
+  end.
+
+(* the loop itself. Every sweep that changes something allow-lists a top-level message that was
+   not, so k = 1 + number of top-level messages sweeps always suffice (Proofs.close_loop_total);
+   running out of k is an error value, never a result *)
+Fixpoint close_loop (g : graph) (n k : nat) (al : list addr) : option (list addr) :=
+  match k with
+  | O => None
+  | S k' => match close_pass g n (tops g) al with
+            | None => None
+            | Some (al', false) => Some al'
+            | Some (al', true) => close_loop g n k' al'
+            end
+  end.
+
+(* the address allow-list API.build prunes with: traversal from the roots, then closed under
+   outermost enclosing messages *)
+Definition allowlist (g : graph) (sel : list string) : res (list addr) :=
+  match roots g sel with
+  | Err e => Err e
+  | Ok rs =>
+      let n := length (universe g rs) in
+      match dfs (succ g) n rs [] with
+      | None => Err EFuel                  (* never: Proofs.allowlist_total *)
+      | Some al0 => match close_loop g n (S (length (tops g))) al0 with
+                    | Some al => Ok al
+                    | None => Err EFuel    (* never: Proofs.allowlist_total *)
+                    end
+      end
   end.
 
 (* ---------------------------------------------------------------- the API after the third pass *)
@@ -335,8 +397,6 @@ Definition build (g : graph) (pkg : string) (l : list libsetting) : outcome :=
 (* types/_message.py.j2 recurses through message.nested_messages / nested_enums of the OBJECT,
    starting from proto.messages and proto.enums; the allow-list is not consulted again.
    (map-entry messages are rendered as the MapField of their parent; they count as rendered.) *)
-Fixpoint rendered_from (m : msg) : list addr :=
-  match m with Msg a _ es ns => a :: es ++ flat_map rendered_from ns end.
 Definition rendered_file (o : ofile) : list addr := o_top_enums o ++ flat_map rendered_from (o_top o).
 Definition rendered (out : list ofile) : list addr := flat_map rendered_file (filter o_target out).
 (* the message declarations that are rendered (as tree nodes) *)
